@@ -687,6 +687,71 @@ fn c02_scenario(name: &'static str, progs: Vec<Vec<COp>>) -> ScenFn {
     })
 }
 
+/// An Acknowledge issued just before the delivery's deadline: once it HAS RETURNED, the acknowledgement is final even
+/// if the deadline passes before anybody else gets to run.  (The clock moves on as soon as the call has returned, not
+/// only once the server is quiescent.)
+fn ack_at_deadline_scenario() -> ScenFn {
+    scen!([] |cx| {
+        let a = cx.api.clone();
+        must!(cx, "setup:create-topic", { let a = a.clone(); async move { a.create_topic(T0).await } });
+        must!(cx, "setup:create-sub", { let a = a.clone(); async move { a.create_sub(S0, T0, 10, None).await } });
+        must!(cx, "setup:publish", { let a = a.clone(); async move { a.publish(T0, vec![(b"m".to_vec(), vec![])]).await } });
+        let t_pull = cx.now_ms();
+        let got = must!(cx, "setup:pull", { let a = a.clone(); async move { a.pull(S0, 1, true).await } });
+        let id = got[0].ack_id.clone();
+        // t0 is on the server's rounding grid, so the deadline is exactly 10 s after the hand-out
+        let before = [1i64, 2, 40][cx.choose("ack-ms-before-the-deadline", 3)];
+        tryv!(cx.advance_to_ms(t_pull + 10_000 - before).await);
+        let via = cx.choose("ack-via", 2); // 0 = unary Acknowledge, 1 = unary ModifyAckDeadline(30) ("returned" = applied as well)
+        let busy = cx.choose("another-request-queued-first", 2) == 1;
+        let hb = if busy { let a = a.clone(); Some(cx.spawn("client:00-get-sub", async move { a.get_sub(S0).await.is_ok() })) } else { None };
+        let ha = { let (a, id) = (a.clone(), id.clone()); cx.spawn("client:01-ack", async move { if via == 0 { a.ack(S0, vec![id]).await } else { a.modify(S0, vec![id], 30).await } }) };
+        tryv!(cx.run_until_done("client:01-ack").await);
+        if !ha.is_finished() {
+            return ScenarioOut::viol("ack-at-deadline/hang", "the Acknowledge did not return".to_string());
+        }
+        let r = ha.await.unwrap();
+        if r.is_err() {
+            return ScenarioOut::viol("ack-at-deadline/failed", format!("{:?}", r));
+        }
+        // the call has returned; now the deadline passes
+        tryv!(cx.advance_ms(before as u64 + 4).await);
+        tryv!(cx.quiesce().await);
+        if let Some(h) = hb {
+            if !h.is_finished() {
+                return ScenarioOut::viol("ack-at-deadline/hang", "GetSubscription did not return".to_string());
+            }
+        }
+        let mut again = vec![];
+        for t in [0u64, 5_000, 12_000] {
+            let was = cx.freeze(true);
+            let q = cx.advance_ms(t).await;
+            cx.freeze(was);
+            tryv!(q);
+            let v = tryv!(cx.settle("probe:pull", { let a = a.clone(); async move { a.pull(S0, 10, true).await } }).await);
+            match v {
+                Ok(v) => again.extend(v.into_iter().map(|m| (cx.now_ms(), m.msg_id))),
+                Err(c) => return ScenarioOut::viol("ack-at-deadline/probe-failed", format!("{:?}", c)),
+            }
+        }
+        if via == 0 && !again.is_empty() {
+            return ScenarioOut::viol("ack-at-deadline/delivered-again-after-ack", format!("Acknowledge({}) had returned OK {} ms before the deadline (another request queued first: {}); the message was delivered again: {:?}", id, before, busy, again));
+        }
+        if via == 1 {
+            // extended to 30 s from the call: not before t_call + 30 s
+            let t_call = t_pull + 10_000 - before;
+            if let Some((t, _)) = again.iter().find(|(t, _)| *t < t_call + 30_000) {
+                return ScenarioOut::viol("ack-at-deadline/extension-lost", format!("ModifyAckDeadline({}, 30) had returned OK {} ms before the old deadline; the message was nevertheless delivered again at {} ms (call at {} ms)", id, before, t, t_call));
+            }
+        }
+        ScenarioOut::ok(format!("via={} busy={} before={} again={}", via, busy, before, again.len()))
+    })
+}
+
+pub fn ack_at_deadline_unit(thorough: bool) -> Unit {
+    explore_unit("sched/ack-returned-then-deadline", "Acknowledge / ModifyAckDeadline(30) issued 1, 2 or 40 ms before the delivery's deadline, optionally behind another queued request; as soon as the call HAS RETURNED the clock crosses the deadline (select order and schedules explored): the acknowledgement / extension holds", Bounds::new(if thorough { 3 } else { 2 }), ExecCfg::default(), ack_at_deadline_scenario())
+}
+
 pub fn c02_sched(thorough: bool) -> Vec<Unit> {
     use COp::*;
     let d = if thorough { 5 } else { 3 };
